@@ -41,6 +41,7 @@ MANIFEST = {
             'renders of one compiled template; unrelated classes whose '
             'names contain a handler name; an exception outside the '
             'Exception hierarchy through (nested) finally blocks.',
+    'more': 'Also: 50..450 handled exceptions / returns in one rendering raised inside documents called by name; handler tags naming several classes separated by any white space.',
     'note': 'Trusted: dtmc/refsem.py (imports nothing from DocumentTemplate; '
             'uses Python try/except/finally itself).  Exceptions are harness '
             'classes raised by namespace callables or by dtml-raise with an '
